@@ -4,6 +4,8 @@ import json, os
 V = os.path.dirname(os.path.dirname(os.path.abspath(__file__)))
 props = [json.loads(l) for l in open(os.path.join(V, "properties.jsonl"))]
 
+LC = "Trusted: Coq kernel + vm_compute; Ref/Rfc9113Stream.v as the reading of RFC 9113 5.1; the state facade hooks (feature verif-hooks); the independent frame parser/writer of the harness. PARTIAL: proved for the per-stream state machine (every state, every method, every argument); the callers (which method runs for which frame/API call), queues, emission order and wake-ups are NOT proved: they are explored on the real crate by deterministic connection scripts judged by a hook-independent wire/API oracle; that part is a search, not a theorem."
+
 CLAIMED = {
  "C02": dict(technique="Coq proof: invariant by induction over labels + refinement to RFC 9113 6.9 accountant; lock-step correspondence of the Gallina model with /repo",
    text="Machine-checked theorems (Coq 8.16, closed under the global context) about an executable Gallina model of h2's send-side flow control: every label sequence (all send/reserve/reset/WINDOW_UPDATE/SETTINGS histories, all scheduling orders, all stream-state histories) is accepted by a wire-level RFC 9113 6.9 accountant; no flow-control assert can fire. The model is tied to /repo on every run by a lock-step check (hook events of the real crate replayed through the model inside Coq, pre-state/outputs/final snapshot compared) and a hook-independent wire ledger run on the bytes the real endpoint wrote.",
@@ -17,6 +19,24 @@ CLAIMED = {
  "C11": dict(technique="Coq proof: Huffman table-walk decoder = RFC 7541 bit-level decoder on every input (induction + finite cell sweep); generated tables = RFC tables; differential run vs hpack::huffman",
    text="Machine-checked: the regenerated ENCODE/DECODE tables of /repo equal the RFC 7541 Appendix B code; the model of h2's table-driven Huffman decoder agrees with the RFC bit-level reference on EVERY byte string (so EOS in the string, padding > 7 bits and non-EOS padding are rejected), decode(encode s) = s for all s. The models are tied to /repo by regenerating the tables on every run and by differential runs of hpack::huffman::{encode,decode} against the model evaluated inside Coq. The header-block decoder (integers, representations, dynamic table, chunk independence) is being added to this check; until then that part of C11 is covered only by the statement in DESIGN.md.",
    note="Trusted: Coq kernel, the transcription of RFC 7541 Appendix B in Ref/Rfc7541HuffTable.v (taken from the RFC text embedded in /repo/util/genhuff), translator for the tables. http-crate validators are predicates.", design="5/C11"),
+ "C03": dict(technique="Coq proof: receive-window conservation invariant by induction over recv.rs labels + ledger theorems; lock-step correspondence; wire/snapshot oracles",
+   text="Machine-checked theorems about an executable Gallina model of h2's receive-side flow control (recv.rs/flow_control.rs: recv_data exits, release_capacity, clear queue, release_closed, set_target_connection_window, SETTINGS_INITIAL_WINDOW_SIZE changes, WINDOW_UPDATE emission): for every label sequence the invariant 'advertised = window + in-flight (+ pending), connection level and per stream' is preserved, the advertised window never exceeds what the peer may legally assume, releasing everything restores the full window, and no flow-control assert/overflow fires. Tied to /repo by a lock-step over the hook events of recv.rs (pre-state and outputs compared inside Coq), a wire ledger on the bytes written, and snapshot oracles; the repaired window stall (fix 6962309) is replayed from the corpus on every run.",
+   note="Trusted as C02. Stream-level conservation is proved for records whose RecvStream handle is alive; after the handle is dropped the code stops maintaining the stream ledger (known finding KF-C03-1). Which exit a DATA frame takes where it depends on content-length/state is an observed input; teardown is outside the lock-step.", design="5/C03"),
+ "C13": dict(technique="Coq proof: the message checks of h2 (model of frame/headers.rs load_hpack, recv_headers/recv_trailers/recv_data length accounting, server/client convert_poll_message, send check_headers) refine the RFC 9113 section 8 malformedness predicate; differential correspondence; reference oracle",
+   text="Machine-checked theorems: whatever field list the decoder yields, the model hands a request/response/interim response/pushed request/trailers to the application only if the RFC 9113 8.x reference predicate does not flag it (except three explicitly characterised known classes, each with a refutation lemma and a witness), the content-length ledger ends cleanly iff the DATA octets equal the declared length, and the send API model emits no block with connection-specific fields. Tied to /repo by running the real endpoint against a scripted raw peer on a corpus, structured mostly-valid messages with injected defects, and random field lists, comparing byte-exactly everything handed to the application and every RST_STREAM/GOAWAY with the model evaluated inside Coq, plus the reference predicate as oracle.",
+   note="Trusted as C02 plus Ref/Rfc9113Http.v as the reading of RFC 9113 8.x; http-crate validators are universally quantified booleans or modelled predicates (HttpTokens.v). Eight genuine defects found this way were repaired in /repo (fix: commits); KF-C13-1..3 remain as known findings.", design="5/C13"),
+ "C04": dict(technique="Coq proof: state.rs transition function refines the RFC 9113 5.1 automaton (send side); differential correspondence with state.rs; wire-level sender oracle on real connection scripts",
+   text="Machine-checked theorems about an executable model of proto/streams/state.rs: every accepted send-side transition is one RFC 9113 figure 2 permits, nothing can be sent after END_STREAM or after a reset (closed is absorbing, the recorded cause never changes), only send_open leaves idle, a state that reports is_send_streaming is one in which the RFC lets DATA be sent. Tied to /repo by running every (state, method, argument) combination and random walks on the real State via a test facade and comparing with the model inside Coq. The connection-level part (frames actually written per stream, order, DATA after END_STREAM, frames on idle/closed streams) is judged by a hook-independent oracle over the bytes the real endpoint writes under thousands of generated scripts.",
+   note=LC, design="5/C04"),
+ "C09": dict(technique="Coq proof: state.rs receive transitions vs RFC 9113 5.1 (accept what is required, refuse what is forbidden, with the required error class); differential correspondence; wire-level reaction/tolerance oracles",
+   text="Machine-checked theorems about the model of state.rs: recv_open/recv_close/recv_reset accept exactly the transitions RFC 9113 5.1 permits and refuse the forbidden ones with a connection error, a locally reset stream is flagged so that late frames are tolerated, is_local_error is true exactly for locally caused closure. Tied to /repo as C04. How the endpoint reacts on the wire to frames on idle/half-closed/closed/reset streams (STREAM_CLOSED vs PROTOCOL_ERROR, stream vs connection error, tolerance window after its own RST_STREAM) is judged by oracles on real connection scripts.",
+   note=LC, design="5/C09"),
+ "C17": dict(technique="Coq proof: every error-recording transition of state.rs stores reason, initiator and debug data intact and the first cause wins; differential correspondence; API-surface oracle on real connection scripts",
+   text="Machine-checked theorems about the model of state.rs: recv_reset, handle_error, recv_go_away/recv_eof, set_reset and set_scheduled_reset record exactly the code/initiator/debug data they were given, ensure_recv_open/ensure_reason/poll_reset's view return that cause afterwards, the cause persists over every later transition and an earlier cause is never overwritten. Tied to /repo as C04. That the code reaching the application (poll_reset, body errors, send errors, connection error) is the one on the wire is judged by an oracle over real connection scripts.",
+   note=LC, design="5/C17"),
+ "C07": dict(technique="Coq proof: connection end closes every stream state for good and a completely received message keeps its clean end; differential correspondence; ending oracle on real connection scripts",
+   text="Machine-checked theorems about the model of state.rs: handle_error/recv_eof/go_away close every state, closed is absorbing, no closed state reports a pending condition, a message whose END_STREAM was received keeps ending cleanly after the connection ends (repaired in /repo by fix 804dd22; C07_state_fix_needed shows the old behaviour violates it). Tied to /repo as C04. That every handle operation of every stream resolves (never stays Pending) once the connection has ended is judged by an oracle over real connection scripts which drops the connection and polls every handle; one known finding (KF-C07-1: poll_reset on a cleanly completed stream stays Pending).",
+   note=LC, design="5/C07"),
 }
 
 NA_REASON = "check not built yet (work in progress in this round; will be claimed once its theorem and correspondence run end to end)"
